@@ -14,13 +14,16 @@
    and the multiset of tool executions (name, args, call id seen by the tool in its ctx, tool
    options the tool was handed).
 
-   Call options: an optional WithToolList (replaces the configured tool set for the call) and
-   the tags carried by the WithToolOption values (a tool that looks at its options prefixes
-   its output with their concatenation, in the order given).
+   Call options: the sequence of ToolsNodeOptions the call was given, in the order given —
+   WithToolList(tools...) (replaces the configured tool set for the call; the last one decides;
+   without argument it withdraws the list) and WithToolOption(tool options...); a tool option is
+   of one of two implementation-specific types and carries a tag; a tool that reads options of
+   type t prefixes its output with the concatenation of the tags of the options of type t, in
+   the order given.  The model folds the sequence itself (Model/ToolsOpts.v).
 
    Error classes: tool errors by their code (>= 100), recovered panic = 4, everything else
    the node reports (unknown tool, bad role, no call, empty stream) = one class 0. *)
-From Eino Require Import Base.Util Model.Concat Model.ConcatMsg Model.Tools Model.ToolsMsg.
+From Eino Require Import Base.Util Model.Concat Model.ConcatMsg Model.Tools Model.ToolsMsg Model.ToolsOpts.
 Local Open Scope string_scope.
 
 (* b_bare: the output is the chunks as they are (no "<tag><name>:" prefix), so that a tool can
@@ -72,8 +75,12 @@ Inductive omsg : Type := M (content id : string) | NoMsg.          (* a tool mes
 Inductive ochunk : Type := Ch (pos : nat) (content id : string).     (* a sparse chunk: position set, message *)
 Inductive xcall : Type := X (name args id tag : string).            (* one tool execution; id as seen in its ctx; option tag it was handed *)
 (* a tool given to NewToolNode / WithToolList: k = None: it implements neither run interface;
-   sees: it looks at its options; info_ok: its Info call succeeds *)
-Inductive tdef : Type := T (name : string) (k : option tkind) (sees : bool) (info_ok : bool).
+   oty: the implementation-specific option type it reads (0 = none); info_ok: its Info call succeeds *)
+Inductive tdef : Type := T (name : string) (k : option tkind) (oty : N) (info_ok : bool).
+(* a tool.Option: its implementation-specific type and the tag it carries *)
+Inductive ctag : Type := TG (ty : N) (tag : string).
+(* a ToolsNodeOption *)
+Inductive cnopt : Type := NOpts (tags : list ctag) | NList (l : option (list tdef)).
 Inductive brow : Type := B (args : string) (b : behav).
 
 Inductive host : Type := HStandalone | HGraph.
@@ -90,8 +97,7 @@ Inductive run : Type :=
 
 Record ccase : Type := mkCase {
   k_tdefs : list tdef;
-  k_call_tdefs : option (list tdef);      (* WithToolList *)
-  k_topts : list string;                  (* the tags of the WithToolOption values, in order *)
+  k_nopts : list cnopt;                   (* the call's options, in the order given *)
   k_rows : list brow;
   k_handler : hcfg;
   k_role_ok : bool;
@@ -130,20 +136,26 @@ Definition omsg_of_msg (m : option msg) : omsg :=
   | None => NoMsg
   end.
 Definition k_tbl (c : ccase) : list (string * behav) := map (fun r => match r with B a b => (a, b) end) (k_rows c).
-(* the option value handed to the tools: the concatenated tags *)
-Definition k_tag (c : ccase) : string := concat_strings (k_topts c).
+(* what a tool that reads options of type [oty] makes of the tool options it is handed *)
+Definition tag_seen (oty : N) (os : list (topt string)) : string := concat_strings (impl_specific oty os).
 (* the tool as the model's convTools sees it; its implementation is the behaviour table, keyed
-   by the argument string, on the tag it acts on *)
-Definition decl_of (tbl : list (string * behav)) (t : tdef) : tooldecl string :=
+   by the argument string, on the tag it reads from the tool options it is handed *)
+Definition decl_of (tbl : list (string * behav)) (t : tdef) : tooldecl (list (topt string)) :=
   match t with
-  | T n k sees ok =>
-      mkTD ok n k (mkTI (fun tag => tbl_inv tbl (if sees then tag else "") n)
-                        (fun tag => tbl_str tbl (if sees then tag else "") n))
+  | T n k oty ok =>
+      mkTD ok n k (mkTI (fun os => tbl_inv tbl (tag_seen oty os) n)
+                        (fun os => tbl_str tbl (tag_seen oty os) n))
   end.
-Definition decls_of (tbl : list (string * behav)) (l : list tdef) : list (tooldecl string) := map (decl_of tbl) l.
-(* name -> (kind, sees) in the list in force, resolved as convTools' index does *)
-Definition def_lookup (l : list tdef) (name : string) : option (option tkind * bool) :=
+Definition decls_of (tbl : list (string * behav)) (l : list tdef) : list (tooldecl (list (topt string))) := map (decl_of tbl) l.
+(* name -> (kind, option type) in the list in force, resolved as convTools' index does *)
+Definition def_lookup (l : list tdef) (name : string) : option (option tkind * N) :=
   index_lookup (map (fun t => match t with T n k s _ => (n, (k, s)) end) l) name.
+Definition topts_of (tags : list ctag) : list (topt string) := map (fun t => match t with TG ty s => (ty, s) end) tags.
+(* the call's options as the model's, over tool descriptions and over the model's tool declarations *)
+Definition nopt_tdefs (o : cnopt) : nodeopt string tdef :=
+  match o with NOpts tags => WithToolOption (topts_of tags) | NList l => WithToolList l end.
+Definition nopt_decls (tbl : list (string * behav)) (o : cnopt) : nodeopt string (tooldecl (list (topt string))) :=
+  match o with NOpts tags => WithToolOption (topts_of tags) | NList l => WithToolList (option_map (decls_of tbl) l) end.
 
 Fixpoint remove_one {A} (eqb : A -> A -> bool) (x : A) (l : list A) : option (list A) :=
   match l with
@@ -161,10 +173,13 @@ Section Case.
   Variable c : ccase.
   Let hd := handler_of (k_handler c).
   Let cfg := decls_of (k_tbl c) (k_tdefs c).
-  Let cll := option_map (decls_of (k_tbl c)) (k_call_tdefs c).
-  Let m_invoke := node_invoke hd cfg cll (k_tag c).
-  Let m_stream := node_stream_open hd cfg cll (k_tag c).
-  Let eff_defs := match k_call_tdefs c with Some l => l | None => k_tdefs c end.
+  Let nopts := map (nopt_decls (k_tbl c)) (k_nopts c).
+  Let m_invoke := call_invoke hd cfg nopts.
+  Let m_stream := call_stream_open hd cfg nopts.
+  (* the model's fold of the option list, on the tool descriptions: the list in force, and the
+     tool options every execution is handed *)
+  Let st := get_node_opts (map nopt_tdefs (k_nopts c)).
+  Let eff_defs := match fst st with Some l => l | None => k_tdefs c end.
 
   Definition host_wrap {A} (h : host) (r : res A) : res A :=
     match h with HStandalone => r | HGraph => in_graph r end.
@@ -172,8 +187,8 @@ Section Case.
   (* the tag a call's execution sees: the handler takes no options *)
   Definition seen_tag (name : string) : string :=
     match def_lookup eff_defs name with
-    | Some (_, true) => k_tag c
-    | _ => ""
+    | Some (_, oty) => tag_seen oty (snd st)
+    | None => ""
     end.
 
   (* the harness's tools record an execution when their body is entered: not for arguments they
@@ -187,7 +202,7 @@ Section Case.
   Definition exec_ok (ex : list xcall) : bool :=
     multiset_eqb xcall_eqb ex
       (map (fun cl => X (c_name cl) (c_args cl) (c_id cl) (seen_tag (c_name cl)))
-           (filter enters_body (node_executed hd cfg cll (k_tag c) (k_role_ok c) (k_calls c)))).
+           (filter enters_body (call_executed hd cfg nopts (k_role_ok c) (k_calls c)))).
 
   Definition invoke_ok (h : host) (pi : list nat) (o : iobs) : bool :=
     match host_wrap h (m_invoke pi (k_role_ok c) (k_calls c)), o with
